@@ -607,7 +607,7 @@ func TestVerifC06(t *testing.T) {
 		}
 	}
 
-	n := r.N(16000, 3000000)
+	n := r.N(16000, 640000)
 	r.Cases("rand", n, func(i int, id string, rng *vk.Rand) {
 		seeds := fixed
 		if rng.Chance(1, 2) {
